@@ -465,6 +465,9 @@ def run_translators():
     ok_rt, msg_rt = gen_runtime_graph(gen_tmp)
     if not ok_rt:
         return False, msg_rt
+    ok_s, msg_s = gen_sites(gen_tmp)
+    if not ok_s:
+        return False, msg_s
     # only touch files whose content changed (keeps make incremental)
     lk = coq_lock()
     try:
@@ -543,4 +546,27 @@ def gen_runtime_graph(outdir):
     with open(os.path.join(outdir, "runtimegraph.json"), "w") as fh:
         json.dump({"ids": ids, "frontier_names": [(f["name"], c) for f in funcs if f["file"] not in inner_files for c in (f["calls"] or [])
                                                   if c in ids and ids[c] in R and ids[c] in set(inner)]}, fh)
+    return True, ""
+
+
+def gen_sites(outdir):
+    """Gen/Sites.v: the inventory of potential non-determinism sites in the type-checked garble packages."""
+    b = os.path.join(sub("bin"), "sites")
+    try:
+        build_go(os.path.join(VERIF, "translate", "sites"), b)
+    except BuildError as e:
+        return False, "sites translator does not build: %s" % str(e)[-500:]
+    src = sub("src-garble")
+    if not os.path.exists(os.path.join(src, "go.mod")):
+        copy_repo(src)
+    r = run([b, src, outdir], env=base_env())
+    if r.returncode != 0:
+        return False, "sites translator failed (the garble packages do not type-check?): " + r.stderr.decode(errors="replace")[-600:]
+    sites = json.load(open(os.path.join(outdir, "sites.json")))
+    body = "Definition sites : list (list N * list N) :=\n  [" + ";\n   ".join(
+        "(%s, %s)" % (nlist(x["where"].rsplit("#", 1)[0].encode()), nlist(x["class"].encode())) for x in sites) + "].\n"
+    header = ("(* GENERATED by /verif/translate/sites from the type-checked garble packages. Do not edit. *)\n"
+              "From Coq Require Import List NArith Bool.\nImport ListNotations.\nOpen Scope N_scope.\n\n")
+    with open(os.path.join(outdir, "Sites.v"), "w") as fh:
+        fh.write(header + body)
     return True, ""
